@@ -81,7 +81,10 @@ GHOSTS = {
     'ncalls': IntS,                           # number of user callbacks invoked so far
     'alloc': IntS,                            # allocation clock: object o exists iff birth(o) < alloc
     'rm_attempts': z3.ArraySort(StrS, BoolS),  # directories on which os.rmdir has been attempted
-    'fs_epoch': IntS,                         # bumped whenever file *contents/metadata* may change
+    'fs_epoch': IntS,
+    'cb_exc': IntS,     # identity of the exception raised by the user function called here (-1: none)
+    'bd_res': IntS,     # number of outstanding output-file reservations in BuildDirs (ghost)
+    'vstate': IntS,     # bumped whenever the virtual directory state may change (fs effect, reservation)                         # bumped whenever file *contents/metadata* may change
 }
 
 
